@@ -68,6 +68,8 @@ fn ops_for(prop: &str, path: &str, th: bool) -> Vec<Op> {
         // O_NONBLOCK everywhere: the name may be a FIFO, and nothing may block
         v.push(r("create_file").flags(O_WRONLY | O_NONBLOCK).mode(0o640));
         v.push(r("create_file").flags(O_RDWR | O_EXCL | O_NONBLOCK).mode(0o600));
+        // O_PATH makes the kernel ignore O_CREAT: a pure (non-following) lookup of the final name through the creation entry point
+        v.push(r("create_file").flags(O_PATH).mode(0o600));
         v.push(r("remove_file"));
         v.push(r("remove_dir"));
         v.push(r("rename").path2("x").flags(0));
@@ -87,6 +89,8 @@ fn ops_for(prop: &str, path: &str, th: bool) -> Vec<Op> {
             v.push(r("create").itype("hardlink").path2("a/../b"));
             v.push(r("create_file").flags(O_WRONLY | O_TRUNC | O_NONBLOCK).mode(0o644));
             v.push(r("create_file").flags(O_RDONLY | O_DIRECTORY | O_NONBLOCK).mode(0o644));
+            v.push(r("create_file").flags(O_PATH | O_DIRECTORY).mode(0o644));
+            v.push(r("create_file").flags(O_PATH | O_EXCL).mode(0o644));
             v.push(r("rename").path2("a/a").flags(0));
             v.push(Op::new("rename").root(ROOT_IN).path("b").path2(path).flags(libc::RENAME_EXCHANGE as i64));
             v.push(r("rename").path2("x").flags(libc::RENAME_WHITEOUT as i64));
